@@ -49,6 +49,8 @@ def run(tier, replay=None):
     todo = []   # (family, desc, schema, full)
     for d, s in names.clash_schemas(tier):
         todo.append(("names", d, s, True))
+    for d, s in names.refcase_schemas(tier):
+        todo.append(("refcase", d, s, True))
     for s, descs in names.concat_schemas(tier):
         todo.append(("concat", "%s .. %s" % (descs[0], descs[-1]), s, True))
     for d, s in names.attribute_schemas(tier):
@@ -62,7 +64,8 @@ def run(tier, replay=None):
     hs = headers.header_schemas()
     for s, _ in (hs[::10] if quick else hs):
         todo.append(("headers", s.package, s, True))
-    rep.set("bounds", {"families": {"names": "every pair of name slots sharing a pool name + mangled-name patterns (thorough: all pool names, permutations, triples)",
+    rep.set("bounds", {"families": {"refcase": "17 reference sites (field/data/dimension/header types, refs, encoding types, valueRef) spelled in another letter case than the definition, one at a time and all together",
+                                    "names": "every pair of name slots sharing a pool name + mangled-name patterns (thorough: all pool names, permutations, triples)",
                                     "concat": "all group forests with <= %d groups, depth <= 3 over %s (paths that join to the same string)" % (3 if quick else 4, names.CPOOL[:5] if quick else names.CPOOL),
                                     "attr": "19 string attribute kinds x tokens %s" % (names.STRING_TOKENS_QUICK if quick else names.STRING_TOKENS),
                                     "num": "16 numeric attribute kinds x literal forms %s + ids beyond the header field type" % (names.NUMERIC_FORMS[:8] if quick else names.NUMERIC_FORMS),
